@@ -1,5 +1,5 @@
 """Per-property checks.  Each function fills a Verdict."""
-import os, json, random, re
+import os, sys, json, random, re
 from infra import *
 import pdu
 from pdu import ALL_VIEWS, LEGACY_VIEWS, Bind
@@ -231,6 +231,8 @@ def c12(v, tier, seed):
     for scn, nr, walk in (("get", 2, True), ("set", 1, False), ("init", 4, False)):
         gen_and_replay(v, wd, ex, bind, "C12", tier, rnd, scn, LEGACY_VIEWS, nr if q else nr * 6, walk, readback=(scn == "set"))
     traces(v, wd, ex, bind, "C12", rnd, 8000 if q else 200000, LEGACY_VIEWS, ("get", "set", "init"), nshards=4 if q else 16, name="legacy-vs-current")
+    # the repository's own unit tests (which drive the deprecated API) recorded through an LD_PRELOAD interposer
+    unit_test_traces(v, wd, "C12")
     v.cov["rule"] = ("legacy alias macros and packed structures validated as facts by FactsTrace; the same TLC transitions are executed through the "
                      "legacy and the current entry points (bytes, results, return codes compared with the one specification)")
     v.cov["distinct_nontrivial"] = v.cov.get("replayed_transitions", 0)
@@ -959,13 +961,13 @@ def c20(v, tier, seed):
             for x in facts[h]:
                 f.write(json.dumps({k: x.get(k, "") for k in ("h", "kind", "name", "body")}) + "\n")
     # (1) the model: every ordered pair (triples in the thorough tier)
-    depth = 2 if q else 3
-    res = run_tlc("Headers", "SPECIFICATION Spec\nCONSTANT Depth = %d\nCONSTRAINT Emit\nINVARIANT AloneClean\nCHECK_DEADLOCK FALSE\n" % depth, wd, env={"FACTS": fp}, heap="12g", timeout=2400)
-    v.add_tlc("Headers depth %d" % depth, res)
-    if not res.ok:
-        # a header that conflicts with itself: report through the compiler below as well
-        v.cov["model_note"] = "AloneClean violated: " + (res.violation or "")[-400:]
-    model = {tuple(e["order"]): e["bad"] for e in res.emitted}
+    model = {}
+    for depth in ((2,) if q else (2, 3)):
+        res = run_tlc("Headers", "SPECIFICATION Spec\nCONSTANT Depth = %d\nCONSTRAINT Emit\nINVARIANT AloneClean\nCHECK_DEADLOCK FALSE\n" % depth, wd, env={"FACTS": fp}, heap="12g", timeout=2400)
+        v.add_tlc("Headers depth %d" % depth, res)
+        if not res.ok:
+            v.cov["model_note"] = "AloneClean violated: " + (res.violation or "")[-400:]
+        for e in res.emitted: model[tuple(e["order"])] = e["bad"]
     # (2) the compiler: meanings alone, then every ordered tuple as C99 and C++
     alone = headers.alone_values(wd, facts)
     v.cov["public_constants_and_layout_facts"] = sum(len(x) for x in alone.values())
@@ -1019,6 +1021,7 @@ def c20(v, tier, seed):
                      "(macro / identifier / tag environments, #pragma pack depth) and prints the predicted conflicts; every ordered pair%s and the all-headers unit in both orders "
                      "is compiled as C99 and C++ with static assertions on %d public constants, sizes and member offsets (their stand-alone values)" % (
                          "pair" if q else "pair and triple", "" if q else " and triple", v.cov["public_constants_and_layout_facts"]))
+    depth = 2 if q else 3
     v.assumptions.append("the compiler's verdict is the oracle; the model contributes the enumeration and the explanation (agreement counted in model_vs_compiler)")
 
 
@@ -1059,3 +1062,58 @@ def talker_streams(v, wd, pid, rnd, q):
             v.cov["traces_validated_against_impl"] += vv.cov["traces_validated_against_impl"]; v.cov["tlc_runs"] += vv.cov["tlc_runs"]
     v.cov["talker_streams"] = ["%s tscf=%d udp=%d: %d events" % (p, t, u, len(e)) for p, t, u, e in jobs]
     if jobs: v.sample({"talker_packet": jobs[0][3][1] if len(jobs[0][3]) > 1 else jobs[0][3][0]})
+
+
+def unit_test_traces(v, wd, pid):
+    """Run the repository's own unit tests under an LD_PRELOAD interposer generated from the public headers;
+    every outermost accessor call they make becomes a PduTrace event (the tests' executions must be behaviours
+    of the specification, all invariants evaluated at every step)."""
+    import subprocess, glob as _g
+    ip = os.path.join(wd, "ipose")
+    r = subprocess.run([sys.executable, os.path.join(HARNESS, "gen_interpose.py"), REPO, ip], capture_output=True, text=True)
+    if r.returncode != 0: raise Infra("interposer generation failed: " + r.stderr[-1500:])
+    objs = []
+    for f in sorted(_g.glob(os.path.join(ip, "*.c"))):
+        o = f[:-2] + ".o"
+        rr = subprocess.run(["gcc", "-fPIC", "-O1", "-w", "-c", "-I" + os.path.join(REPO, "include"), f, "-o", o], capture_output=True, text=True)
+        if rr.returncode != 0: raise CompileError("interposer does not compile against the headers: " + rr.stderr[-2000:])
+        objs.append(o)
+    so = os.path.join(ip, "libipose.so")
+    rr = subprocess.run(["gcc", "-shared", "-o", so] + objs + ["-ldl"], capture_output=True, text=True)
+    if rr.returncode != 0: raise Infra("interposer link failed: " + rr.stderr[-1000:])
+    bdir = os.path.join(wd, "unit_build")
+    rr = subprocess.run(["cmake", "-G", "Ninja", "-S", REPO, "-B", bdir, "-DUNIT_TESTING=on"], capture_output=True, text=True)
+    if rr.returncode != 0: raise Infra("cmake configure of the repository failed: " + rr.stderr[-800:])
+    rr = subprocess.run(["cmake", "--build", bdir], capture_output=True, text=True)
+    if rr.returncode != 0: raise CompileError("the repository does not build: " + (rr.stdout + rr.stderr)[-2000:])
+    trace = os.path.join(wd, "unit_trace.ndjson")
+    ntests = 0
+    for t in sorted(_g.glob(os.path.join(bdir, "test-*"))):
+        if not os.access(t, os.X_OK): continue
+        env = dict(os.environ, LD_PRELOAD=so, O1722_TRACE=trace)
+        rr = subprocess.run([t], capture_output=True, text=True, env=env, timeout=300)
+        ntests += len(re.findall(r"\[\s+OK\s+\]", rr.stdout + rr.stderr))
+    layout = pdu.field_widths(wd)
+    evs = []
+    if os.path.exists(trace):
+        for ln in open(trace):
+            try: e = json.loads(ln)
+            except Exception: continue
+            if e["view"] not in layout["hdrlen"]: continue
+            L = layout["hdrlen"][e["view"]]
+            if e["op"].startswith("null") and e["op"] != "nullout":
+                e["pre"] = [0] * L; e["post"] = [0] * L
+            if len(e["pre"]) != L: continue            # published header length differs from the specification: C03 reports that
+            if e["op"] in ("badget", "badset"):
+                e["id"] = "max" if e["rawid"] == e["idmax"] else "other"; e["field"] = ""
+            else:
+                e["id"] = ""
+                if e["op"] in ("get", "set", "nullget", "nullset", "nullout") and e["field"] not in layout["fields"][e["view"]]: continue
+            if e["op"] == "init" and e["path"] == "legacy" and e["view"] != "Cvf": e["val"] = [0] * 8
+            e.pop("rawid", None); e.pop("idmax", None)
+            evs.append(e)
+    v.cov["unit_test_events"] = len(evs); v.cov["unit_tests_run"] = ntests
+    if not evs: raise Infra("the interposer recorded nothing from the unit tests")
+    pdu.validate_events(v, wd, pdu.shard(evs, 4), pid, "unit-tests",
+                        keyfn=lambda e, a=None, b=None: "unit-test view=%s op=%s path=%s field=%s kind=trace" % (e.get("view"), e.get("op"), e.get("path"), e.get("field") or e.get("id") or "-"))
+    v.sample({"unit_test_event": evs[len(evs) // 2]})
